@@ -185,8 +185,13 @@ fn scenario_index(rng: &mut Rng, dir: &Path, flush: bool) -> Result<Recorded, St
     for _ in 0..rng.urange(1, 6) {
         step(&mut m, rng, &mut hist);
     }
-    m.save_all().map_err(|e| format!("first save_all failed: {e}"))?;
-    hist.push(json!(["save_all (completed)"]));
+    // one history in three monitors the very FIRST save (no earlier file on disk: old state = empty store)
+    if rng.chance(2, 3) {
+        m.save_all().map_err(|e| format!("first save_all failed: {e}"))?;
+        hist.push(json!(["save_all (completed)"]));
+    } else {
+        hist.push(json!(["(no earlier save: the monitored save is the first one)"]));
+    }
     for _ in 0..rng.urange(1, 6) {
         step(&mut m, rng, &mut hist);
     }
@@ -254,8 +259,12 @@ fn scenario_residency(rng: &mut Rng, dir: &Path) -> Result<Recorded, String> {
     for _ in 0..rng.urange(1, 30) {
         step(&mut db, rng, &mut hist);
     }
-    db.save().map_err(|e| format!("first save failed: {e}"))?;
-    hist.push(json!(["save (completed)"]));
+    if rng.chance(2, 3) {
+        db.save().map_err(|e| format!("first save failed: {e}"))?;
+        hist.push(json!(["save (completed)"]));
+    } else {
+        hist.push(json!(["(no earlier save: the monitored save is the first one)"]));
+    }
     for _ in 0..rng.urange(1, 30) {
         step(&mut db, rng, &mut hist);
     }
@@ -314,8 +323,12 @@ fn scenario_lru(rng: &mut Rng, dir: &Path, shutdown: bool) -> Result<Recorded, S
         l.bump_generation();
         hist.push(json!(["bump_generation"]));
     }
-    runtime.block_on(l.checkpoint_to_disk()).map_err(|e| format!("first checkpoint failed: {e}"))?;
-    hist.push(json!(["checkpoint_to_disk (completed)"]));
+    if rng.chance(2, 3) {
+        runtime.block_on(l.checkpoint_to_disk()).map_err(|e| format!("first checkpoint failed: {e}"))?;
+        hist.push(json!(["checkpoint_to_disk (completed)"]));
+    } else {
+        hist.push(json!(["(no earlier checkpoint: the monitored one is the first)"]));
+    }
     for _ in 0..rng.urange(1, 12) {
         step(&mut l, rng, &mut hist);
     }
